@@ -931,12 +931,9 @@ fn settle(report: &mut Report, outcomes: Vec<Outcome>, groups: &mut BTreeMap<Str
             report.hist("H19", if h { "inside" } else { "outside" });
         }
         let mut violations = o.violations;
-        // known region: strictness hole of the unit generator variant (recorded finding)
+        // known region: sequences read as require modes (recorded finding F28)
         violations.retain(|v| {
-            if v.check.starts_with("strict-") && is_retain_lines_extra_field(&o.case) {
-                report.count("known_region_strict_retain_lines_extra_field", 1);
-                false
-            } else if v.check.starts_with("strict-") && is_require_mode_sequence(&o.case) {
+            if v.check.starts_with("strict-") && is_require_mode_sequence(&o.case) {
                 report.count("known_region_strict_require_mode_sequence", 1);
                 false
             } else {
@@ -996,25 +993,6 @@ fn is_require_mode_sequence(case: &Case) -> bool {
     find(&case.j)
 }
 
-fn is_retain_lines_extra_field(case: &Case) -> bool {
-    // {generator: {name: 'retain_lines' | 'retain-lines', <anything else>}} with the fault inside that object
-    fn find(j: &J) -> bool {
-        match j {
-            J::Obj(kvs) => {
-                kvs.iter().any(|(k, v)| {
-                    k == "generator"
-                        && matches!(v, J::Obj(g) if g.len() > 1
-                            && g.iter().filter(|(k, _)| k == "name").count() == 1
-                            && g.iter().any(|(k, v)| k == "name" && matches!(v, J::Str(n) if n == "retain_lines" || n == "retain-lines")))
-                }) || kvs.iter().any(|(_, v)| find(v))
-            }
-            J::Arr(xs) => xs.iter().any(find),
-            _ => false,
-        }
-    }
-    case.origin.contains("generator") && find(&case.j)
-}
-
 /// "two configurations that behave differently never serialise to the same text"
 fn check_groups(report: &mut Report, groups: &BTreeMap<String, Vec<(String, String, bool)>>) {
     for (text, members) in groups {
@@ -1069,7 +1047,18 @@ fn replay_known(report: &mut Report) {
             _ => false,
         };
         if still {
-            report.known_finding(&id, f["expected_wrong"].as_str().unwrap_or(""));
+            if f["status"] == "fixed" {
+                // a repaired defect is not excused any more
+                report.violation(Violation {
+                    kind: "oracle".into(),
+                    check: "fixed-finding-regressed".into(),
+                    what: format!("{} is recorded as fixed but its witness fails again: {}", id, f["expected_wrong"].as_str().unwrap_or("")),
+                    input: json!({"kind": "known-finding", "id": id, "witness": w}),
+                    failing_input_found: true,
+                });
+            } else {
+                report.known_finding(&id, f["expected_wrong"].as_str().unwrap_or(""));
+            }
         }
     }
 }
@@ -1309,20 +1298,72 @@ pub fn run(report: &mut Report, replay: Option<&str>) {
             must_reject: Some("invalid-regex".into()),
         });
     }
-    for (a, b) in [("text", "file")] {
-        corrupted.push(Case {
-            j: config_with_rules(vec![obj(vec![("rule", s("append_text_comment")), (a, s("x")), (b, s("note.txt"))])]),
-            origin: "contradictory properties".into(),
-            must_reject: Some("contradictory".into()),
-        });
+    // contradictory properties: every collision list of the code (`verify_property_collisions`), every pair
+    // of it (adjacent in the list or not) in both orders, every larger subset, with and without harmless
+    // companions, in several value kinds
+    let collision_lists: &[(&str, &[(&str, J)], &[&str], &[(&str, J)])] = &[
+        ("append_text_comment", &[], &["text", "file"], &[("location", J::Str("end".into()))]),
+        ("inject_global_value", &[("identifier", J::Str("V".into()))], &["value", "env", "env_json"], &[]),
+        ("inject_global_value", &[("identifier", J::Str("V".into()))], &["value", "default_value"], &[]),
+    ];
+    for (rule, required, list, companions) in collision_lists {
+        let n = list.len();
+        for mask in 0u32..(1 << n) {
+            if mask.count_ones() < 2 {
+                continue;
+            }
+            let chosen: Vec<&str> = (0..n).filter(|i| mask & (1 << i) != 0).map(|i| list[i]).collect();
+            for reversed in [false, true] {
+                for value_kind in 0..3 {
+                    for with_companions in [false, true] {
+                        for required_first in [true, false] {
+                            let mut keys = chosen.clone();
+                            if reversed {
+                                keys.reverse();
+                            }
+                            let value_of = |k: &str| -> J {
+                                // `env` / `env_json` / `text` / `file` must be strings to be well typed
+                                if matches!(k, "value" | "default_value") {
+                                    match value_kind {
+                                        0 => s("x"),
+                                        1 => J::Num(1),
+                                        _ => J::Null,
+                                    }
+                                } else if k == "file" {
+                                    s("note.txt")
+                                } else {
+                                    s("DLV_C19_UNSET_VARIABLE")
+                                }
+                            };
+                            let mut kvs: Vec<(String, J)> = vec![("rule".to_owned(), s(rule))];
+                            if required_first {
+                                kvs.extend(required.iter().map(|(k, v)| ((*k).to_owned(), v.clone())));
+                            }
+                            for k in &keys {
+                                kvs.push(((*k).to_owned(), value_of(k)));
+                            }
+                            if !required_first {
+                                kvs.extend(required.iter().map(|(k, v)| ((*k).to_owned(), v.clone())));
+                            }
+                            if with_companions {
+                                kvs.extend(companions.iter().map(|(k, v)| ((*k).to_owned(), v.clone())));
+                                kvs.push(("skip_files".to_owned(), s("**/b.lua")));
+                            }
+                            corrupted.push(Case {
+                                j: config_with_rules(vec![J::Obj(kvs)]),
+                                origin: format!("contradictory properties {}: {}", rule, keys.join("+")),
+                                must_reject: Some("contradictory".into()),
+                            });
+                        }
+                    }
+                }
+            }
+        }
     }
-    for (a, b) in [("value", "env"), ("value", "env_json"), ("env", "env_json"), ("value", "default_value")] {
-        corrupted.push(Case {
-            j: config_with_rules(vec![obj(vec![("rule", s("inject_global_value")), ("identifier", s("V")), (a, s("x")), (b, s("y"))])]),
-            origin: "contradictory properties".into(),
-            must_reject: Some("contradictory".into()),
-        });
-    }
+    report.exhaustive.insert(
+        "contradictory properties: every subset (size >= 2) of every collision list, both orders".into(),
+        true,
+    );
     report.count("corruption_cases", corrupted.len() as u64);
     report.exhaustive.insert(
         "all single-field corruptions (extra key x every known property name, misspelt, duplicate, wrong type) of one base configuration per rule and three generator/bundle/top-level bases".into(),
